@@ -182,7 +182,7 @@ def canonF64 (x : Float) : String := if x.isNaN then "9221120237041090560" else 
 def isoErrF (e : Int) : Float32 := E32.mul (Sage.C04.ofInt E32 e) E32.neutron
 
 def psmToks (r : Req) (scored : Nat) (p : Psm Float) : List String :=
-  let label : Int := match (r.raws.map (·.2))[p.pep]? with | some true => -1 | _ => 1
+  let label : Int := (labelAt (r.raws.map (·.2)).toArray p.pep).getD 1
   [toString p.pep, toString p.charge, toString p.rank, canonF32 (isoErrF p.iso), toString p.matched,
    toString scored, canonF64 p.hs, canonF64 p.dnext, canonF64 p.dbest, toString label]
 
@@ -207,7 +207,7 @@ def deltaNear (a b hs : Float) : Bool :=
 
 /-- positional comparison of the model's PSMs with the implementation's -/
 def psmAgree (r : Req) (scored : Nat) (m : Psm Float) (i : Rep Float32 Float) : Bool :=
-  let label : Int := match (r.raws.map (·.2))[m.pep]? with | some true => -1 | _ => 1
+  let label : Int := (labelAt (r.raws.map (·.2)).toArray m.pep).getD 1
   m.pep == i.pep && m.charge == i.charge && m.rank == i.rank && (isoErrF m.iso).toBits == i.isoErr.toBits &&
   m.matched == i.matched && scored == i.scoredCandidates && label == i.label &&
   near4 m.hs i.hs && deltaNear m.dnext i.dnext m.hs && deltaNear m.dbest i.dbest m.hs
